@@ -132,6 +132,12 @@ class ObserverList(Observer):
         super().updateStats(file, stats)
 
     def serializeDetails(self):
+        def keystr(key):
+            # PO entities have (msgid, msgctxt) tuples as keys
+            if isinstance(key, str):
+                return key
+            return " / ".join(str(k) for k in key if k is not None)
+
         def tostr(t):
             if t[1] == "key":
                 return "  " * t[0] + "/".join(t[2])
@@ -143,9 +149,9 @@ class ObserverList(Observer):
                 elif "warning" in item:
                     o += [indent + "WARNING: " + item["warning"]]
                 elif "missingEntity" in item:
-                    o += [indent + "+" + item["missingEntity"]]
+                    o += [indent + "+" + keystr(item["missingEntity"])]
                 elif "obsoleteEntity" in item:
-                    o += [indent + "-" + item["obsoleteEntity"]]
+                    o += [indent + "-" + keystr(item["obsoleteEntity"])]
                 elif "missingFile" in item:
                     o.append(indent + "// add and localize this file")
                 elif "obsoleteFile" in item:
